@@ -3,6 +3,7 @@ package rules
 import (
 	"go/types"
 	"sort"
+	"strings"
 
 	"golang.org/x/tools/go/ssa"
 
@@ -86,7 +87,8 @@ func builtinProcessors(c *core.Ctx) []*procInfo {
 	registered := map[*types.Named]bool{}
 	for _, fn := range c.Scope {
 		p := core.PkgOf(fn)
-		if p == nil || p.Pkg.Path() != core.Mod+"/app" {
+		// (package app and the internal packages below it)
+		if p == nil || (p.Pkg.Path() != core.Mod+"/app" && !strings.HasPrefix(p.Pkg.Path(), core.Mod+"/app/")) {
 			continue
 		}
 		for _, ci := range core.Calls(fn) {
